@@ -59,11 +59,13 @@ Definition outcome_code (o : outcome) : N :=
 
 (* (model outcome code, outcome equal, log equal, database equal, provider calls equal, agreeing prefix of the log,
    the model's accumulated side conditions s_ok: hypothesis of solve_no_false_unsat,
-   size of the ghost set s_born at the end: the clauses exempt from solve_sat_loses_no_clause) *)
+   size of the ghost set s_born at the end: the clauses exempt from solve_sat_loses_no_clause,
+   provider calls equal as multisets) *)
 Definition check_solver (U : provider) (P : problem) (fuel efuel : nat) (order : option (list task))
            (kind : N) (res : list N) (evs : list levent) (db : list cl) (calls : list pcall)
-  : N * bool * bool * bool * bool * N * bool * N :=
+  : N * bool * bool * bool * bool * N * bool * N * bool :=
   let '(o, st) := solve_default U P fuel efuel order in
   let lg := rev (s_log st) in
   (outcome_code o, outcome_eqb o kind res, levents_eqb lg evs, cls_same_full (s_db st) db,
-   pcalls_eqb (e_calls (s_enc st)) calls, common_prefix lg evs 0, s_ok st, N.of_nat (length (s_born st))).
+   pcalls_eqb (e_calls (s_enc st)) calls, common_prefix lg evs 0, s_ok st, N.of_nat (length (s_born st)),
+   pcalls_permb (e_calls (s_enc st)) calls).
